@@ -274,9 +274,14 @@ func runCheck(prop, tier string, writeLock bool) int {
 		}
 	}
 	var wg sync.WaitGroup
-	sem := make(chan struct{}, envInt("VERIF_JOBS", 10))
+	var genSMT float64
+	sem := make(chan struct{}, envInt("VERIF_JOBS", 12))
+	only := os.Getenv("VERIF_ONLY")
 	for _, o := range allObls {
 		if o.Cover && tier != "thorough" && !strings.HasSuffix(o.Name, "cover/pre") {
+			continue
+		}
+		if only != "" && !strings.Contains(o.Name, only) {
 			continue
 		}
 		wg.Add(1)
@@ -285,18 +290,26 @@ func runCheck(prop, tier string, writeLock bool) int {
 			sem <- struct{}{}
 			defer func() { <-sem }()
 			e := execOf[o]
-			body := e.smtFor(o)
+			tg := time.Now()
+			body, ground := e.smtFor2(o)
+			atomicAddF(&genSMT, time.Since(tg).Seconds())
 			fn, err := writeSMT(scratch, o.Name, body)
 			if err != nil {
 				o.Res = SolverResult{Status: "error", Output: err.Error()}
 				return
 			}
 			o.SMTFile = fn
-			if len(body) > 4<<20 {
-				o.Res = SolverResult{Status: "error", Output: "VC larger than 4 MB"}
+			if len(body) > 8<<20 {
+				o.Res = SolverResult{Status: "error", Output: "VC larger than 8 MB"}
 				return
 			}
-			o.Res = solve(fn, timeout, seed, tier == "thorough" && !o.Cover)
+			gfn := ""
+			if ground != "" {
+				gfn, _ = writeSMT(scratch, o.Name+".ground", ground)
+			}
+			ts := time.Now()
+			o.Res = solveVariants(fn, gfn, timeout, seed, tier == "thorough" && !o.Cover)
+			o.WallS = time.Since(ts).Seconds()
 		}(o)
 	}
 	wg.Wait()
@@ -459,6 +472,7 @@ func runCheck(prop, tier string, writeLock bool) int {
 		"unproved_clauses":         cfg.Unproved,
 		"spec_files":               g.specFiles,
 		"timeout_s":                timeout,
+		"vc_build_cpu_s":           round3(genSMT),
 	}
 	wall := time.Since(t0).Seconds()
 	writeEvidence(prop, tier, seed, samples, trusted, extra, cfg, wall, len(violations), &nObl, &nDis)
@@ -470,7 +484,7 @@ func runCheck(prop, tier string, writeLock bool) int {
 	if os.Getenv("VERIF_VERBOSE") != "" {
 		for _, o := range allObls {
 			if o.Res.Status != "" {
-				fmt.Printf("  %-8s %-7s %6.2fs %s\n", o.Res.Status, o.Res.Solver, o.Res.TimeS, o.Name)
+				fmt.Printf("  %-8s %-7s %6.2fs %6.2fs %s %v\n", o.Res.Status, o.Res.Solver, o.Res.TimeS, o.WallS, o.Name, o.Res.Answers)
 			}
 		}
 		for _, fr := range freps {
@@ -586,6 +600,87 @@ const prelude = `(set-option :produce-models true)
 (declare-fun dyntype (Int) Int)
 (declare-fun subtag (Int) Int)
 `
+
+// smtFor2 builds the query and, when it contains quantifiers, a pre-instantiated version plus its
+// quantifier-free weakening (see inst.go).
+func (e *Exec) smtFor2(o *Obligation) (string, string) {
+	if os.Getenv("VERIF_NOINST") != "" {
+		return e.smtFor(o), ""
+	}
+	var head strings.Builder
+	head.WriteString(prelude)
+	head.WriteString(e.specFnDefs())
+	var hyps []*Sx
+	for _, d := range e.decls {
+		if strings.HasPrefix(d, "(assert ") {
+			hyps = append(hyps, parseSx(d).L[1])
+			continue
+		}
+		head.WriteString(d)
+		head.WriteByte('\n')
+	}
+	for _, ln := range strings.Split(e.lemmaAxioms(), "\n") {
+		if strings.HasPrefix(ln, "(assert ") {
+			hyps = append(hyps, parseSx(ln).L[1])
+		}
+	}
+	for _, f := range e.facts[:o.NFacts] {
+		hyps = append(hyps, parseSx(f))
+	}
+	for _, x := range o.Extra {
+		if strings.HasPrefix(x, "(assert ") {
+			hyps = append(hyps, parseSx(x).L[1])
+		} else {
+			head.WriteString(x)
+			head.WriteByte('\n')
+		}
+	}
+	ic := &instCtx{sortOf: map[string]string{}}
+	var proc []*Sx
+	for _, h := range hyps {
+		proc = append(proc, ic.pos(h))
+	}
+	proc = append(proc, ic.neg(parseSx(o.Goal)))
+	if !ic.hasQ {
+		return e.smtFor(o), ""
+	}
+	if o.Cover {
+		// satisfiability question: answer it on the quantifier-free weakening (instances included); with
+		// quantifiers present no solver reports "sat". This shows the hypotheses are not plainly contradictory.
+		inst := ic.instantiate(proc, 2)
+		var ground strings.Builder
+		ground.WriteString(uninterpretRec(head.String()))
+		for _, d := range ic.decls {
+			ground.WriteString(d + "\n")
+		}
+		for _, a := range append(proc, inst...) {
+			g := dropForalls(a)
+			if !(g.isAtom() && g.A == "true") {
+				ground.WriteString("(assert " + g.String() + ")\n")
+			}
+		}
+		ground.WriteString("(check-sat)\n")
+		return ground.String(), ""
+	}
+	inst := ic.instantiate(proc, 3)
+	var full, ground strings.Builder
+	full.WriteString(head.String())
+	ground.WriteString(head.String())
+	for _, d := range ic.decls {
+		full.WriteString(d + "\n")
+		ground.WriteString(d + "\n")
+	}
+	for _, a := range append(proc, inst...) {
+		full.WriteString("(assert " + a.String() + ")\n")
+		g := dropForalls(a)
+		if !(g.isAtom() && g.A == "true") {
+			ground.WriteString("(assert " + g.String() + ")\n")
+		}
+	}
+	full.WriteString("(check-sat)\n(get-model)\n")
+	ground.WriteString("(check-sat)\n")
+	return full.String(), ground.String()
+}
 
 func (e *Exec) smtFor(o *Obligation) string {
 	var b strings.Builder
@@ -889,4 +984,12 @@ func uninterpretRec(defs string) string {
 		out = append(out, ln)
 	}
 	return strings.Join(out, "\n")
+}
+
+var fmu sync.Mutex
+
+func atomicAddF(p *float64, v float64) {
+	fmu.Lock()
+	*p += v
+	fmu.Unlock()
 }
